@@ -140,7 +140,7 @@ def dw_call(c):
     """per asset: q is a whole number >= 0 with q*p + fee(A) <= A < (q+1)*p + fee(A), A = (1-b)*E*w/sum(w);
        all-zero weights -> all-zero target; negative weight -> ValueError; keys = weight keys; prices read at dt"""
     w = c.key('w')
-    b = c.real('buffer', lambda r: r.choice([0.0, 0.05, 0.5, 1.0]))
+    b = c.real('buffer', lambda r: r.choice([0.0, 0.05, 0.5, 1.0, 1.0 / 3, 0.123456, 4e-5, 0.99996]))
     c.assume(AND(GE(b, 0), LE(b, 1)))
     sizer, E, r, dlog = setup(c, DW, b, 'cash_buffer_percentage')
     wts = _weights(c, signed=True)
@@ -324,7 +324,7 @@ canary('negative-weight check after the zero-sum early exit', DW, '_normalise_we
 def dw_rejections(c):
     """buffer outside [0,1] -> ValueError at construction; an unavailable (NaN) price for a weighted asset -> ValueError"""
     n = c.key('nan_asset')
-    b = c.real('buffer', lambda r: r.choice([-0.1, 0.0, 0.5, 1.0, 1.01]))
+    b = c.real('buffer', lambda r: r.choice([-0.1, 0.0, 0.5, 1.0, 1.01, -0.00004, 1.00004]))
     try:
         sizer, E, r, dlog = setup(c, DW, b, 'cash_buffer_percentage')
         built = True
@@ -432,7 +432,12 @@ def ls_call(c):
     if c.mode == 'conc' and G > 0:
         # weights normalised by hand from rounded figures: gross exposure a few parts per million off the leverage (not equal to
         # it), low-priced assets - rescaling is still due, and a shortcut 'already at the target' over-allocates by E*L*ppm
-        ppm = c.real('weights_rescaled_to_ppm_off_the_leverage', lambda r: r.choice([0, 0, 0, 3, -6, 8, 9]))
+        # ... and weight vectors of a very small scale (gross exposure 1e-7 .. 1e-5, above the 1e-8 guard): the proportions count
+        tiny = c.real('weights_scaled_down_by', lambda r: r.choice([0, 0, 0, 0, 1.37e-7, 3.3e-6]))
+        if tiny:
+            wts = {k: v * tiny for k, v in wts.items()}
+            G = _sum(c, wts, ABS)
+        ppm = c.real('weights_rescaled_to_ppm_off_the_leverage', lambda r: r.choice([0, 0, 0, 3, -6, 8, 9])) if not tiny else 0
         if ppm:
             f = L * (1 + ppm * 1e-6) / G
             wts = {k: v * f for k, v in wts.items()}
